@@ -477,6 +477,7 @@ class Unit:
             self.counts["R2.selfmut"] = self.counts.get("R2.selfmut", 0) + 1
         sig = self.apply_subs(sig, subs, "sig", "signature of " + fid)
         if "rename" in args:
+            fn["gen_name"] = args["rename"]
             sig = re.sub(r"\bfn\s+" + re.escape(name) + r"\b", "fn " + args["rename"], sig, count=1)
             self.counts["R5.rename"] = self.counts.get("R5.rename", 0) + 1
         if "ret" in args:
